@@ -100,7 +100,7 @@ CHECKS = {
   note="Trusted: crypto/x509, crypto/tls, the clock. Not covered: certificate contents.",
   ref="DESIGN.md §4 C19"),
  "C10": dict(
-  technique="static analysis: table agreement between advertised column metadata and value producers (syntax tree + type info), canonical-name provenance, selector cardinality shapes, structural row-construction rules, constant-mask check, length-abstraction simulation of buildNodes",
+  technique="static analysis: table agreement between advertised column metadata (syntax tree + type info) and value producers (resolved by role on go/ssa: the lookups handed to FilterValues and the precomputed row), canonical-name provenance, value-provenance rules on node literals and address comparison, selector cardinality shapes, structural row-construction rules, constant-mask check, length-abstraction simulation of buildNodes",
   text="Structural parts only (token arithmetic, value equality with the configuration and cross-proxy agreement are numeric/run-time facts and are not decided): every advertised column of system.local/peers (plain and DSE) has a producer whose encoded datatype is wire-compatible with the advertised type; the parsed table name is the case-folded identifier and tables/arms are keyed lower-case; every selector yields as many values as columns; system.local is one row, system.peers one row per non-local node with count = nodes-1, self-entries in the peer list are dropped; host ids are MD5 name-based UUIDs of the node's own address with version-3/variant bits; when tokens are calculated no path adds a peer without running the token assignment.",
   note="Not covered: evenly spaced/distinct/ordered tokens, values equal to configuration, agreement between independently started proxies, count() values.",
   ref="DESIGN.md §4 C10"),
@@ -117,7 +117,7 @@ def main():
             na.append({"property_id": pid, "reason": NOT_APPLICABLE.get(pid, NOT_YET)})
             continue
         c = dict(c)
-        c["text"] = c["text"] + ADDENDA.get(pid, "")
+        c["text"] = c["text"] + ADDENDA.get(pid, "") + ADDENDA3.get(pid, "")
         if pid in NOTE_FIXES:
             a, b = NOTE_FIXES[pid]
             c["note"] = c["note"].replace(a, b)
@@ -149,7 +149,7 @@ def main():
         }],
         "checks": checks,
         "not_applicable": na,
-        "notes": "All claims are at level 'other': structural necessary conditions decided statically on every path of the resolved program. Genuine defects found on the pinned tree (31) were repaired in /repo with 'fix:' commits; one more (three call sites, C17) is recorded as a known finding; all are listed in /verif/known_findings.json.",
+        "notes": "All claims are at level 'other': structural necessary conditions decided statically on every path of the resolved program. Genuine defects found on the pinned tree (37) were repaired in /repo with 'fix:' commits; one more (three call sites, C17) is recorded as a known finding; all are listed in /verif/known_findings.json.",
     }
     json.dump(m, open("/verif/MANIFEST.json", "w"), indent=1)
     print("MANIFEST.json:", len(checks), "checks,", len(na), "not applicable")
@@ -177,6 +177,21 @@ ADDENDA = {
  "C18": " Also decided: a field locked in two functions is locked everywhere (fields outside the table too); no field store after an object was published to a shared registry; the client connection's codec only through atomic.Value; request fields read without the mutex have no late writes (by inventory, not by name).",
  "C20": " Also decided: consistency-level options are written only by the option parser and by copying literals (no re-defaulting on the zero value, which is ANY); no backend configured is refused (simulation cell).",
 }
+# third-generation rules (DESIGN.md section 4, "Rules added after the third round")
+ADDENDA3 = {
+ "C04": " The table of non-idempotent functions and its case/quote-aware membership test (shared with C06).",
+ "C06": " The lexer's identifier text is read only where the current token is known to be an identifier (precondition propagated over the parser).",
+ "C07": " A session is filed in the session table under the version, keyspace and compression it was connected with.",
+ "C08": " The bound on re-executions after a re-prepare belongs to one host (compared with the current host or reset where it changes) and covers every prepared statement of a BATCH; an UNPREPARED reply for a cached statement never reaches the request.",
+ "C10": " A peer without a data center gets the value the local node's data center is built from; node addresses are compared without lossy conversion; local and peers rows spell the address the same way for the host id; row values are produced from the table's columns.",
+ "C12": " The configured override level is never re-defaulted (shared with C20); the re-encoded frame is returned only when the conversion succeeded.",
+ "C14": " The hand-over of an event frame from the control connection's reader to the control loop cannot drop it.",
+ "C17": " Value codecs of the library run under a recover; the frame of a failed re-encoding never reaches a writer; the answer to a system-table select is linear in the select list; every wait of the cluster's control loop takes new listeners.",
+ "C18": " Entries of plain maps kept in fields of shared objects are written only under a mutex of the object, during construction, or when confined to the goroutine serving the owner.",
+ "C19": " The root pool a bundle's CA is appended to is created for that bundle, never shared through a package variable.",
+ "C20": " --max-protocol-version is what the per-frame version gate compares with (gate decided for every version x maximum, shared with C13).",
+}
+
 NOTE_FIXES = {
  "C01": ("; the residual window in ClientConn.Send where a request stays registered after its write failed", "; a client that stops reading while staying connected (recorded C17 finding)"),
  "C08": ("version/compression of the replayed PREPARE frame", "whether the backend assigns the same id to the re-prepared statement"),
